@@ -386,5 +386,8 @@ fn finish(m: &Merged, tier: Tier) -> Finish {
     f.extras.insert("kind_pairs".into(), json!(pairs));
     f.extras.insert("not_expressible_as_text".into(), json!(m.c("not-expressible-as-text")));
     f.assumptions = vec!["trees containing NaN, DateTime or Duration literals, or names that are not plain identifiers, are outside the parser's image and are not tested".into()];
+    if tier == Tier::Thorough {
+        crate::fuzzleg::attach(&mut f, "C16", 150);
+    }
     f
 }
